@@ -93,18 +93,24 @@ type c19GraphRow struct {
 
 // c19Graphs explores the graph of every program; returns whether all were completed.
 func c19Graphs(run *common.Run, sub string, progs []*sched.Program, start time.Time) bool {
+	// All programs are explored concurrently, each graph by a few executors: executions are chains of goroutine
+	// hand-overs (latency bound, one runnable goroutine each), so 4x more executions than cores are kept in flight,
+	// and few executors per graph keep the per-graph lock uncontended.
 	cores := c19Cores()
-	sem := make(chan struct{}, cores)
+	sem := make(chan struct{}, 4*cores)
 	j := common.NewJournal("C19")
 	rows := make([]*c19GraphRow, len(progs))
 	var mu sync.Mutex
 	sampled := 0
 	allComplete := true
-	execs := 4
-	if len(progs) < cores {
-		execs = (cores + len(progs) - 1) / len(progs)
+	execs := 4 * cores / len(progs)
+	if execs < 2 {
+		execs = 2
 	}
-	common.Parallel(len(progs), cores, func(pi int) {
+	if execs > 8 {
+		execs = 8
+	}
+	common.Parallel(len(progs), len(progs), func(pi int) {
 		if !run.Want(sub, pi) || run.TooMany() {
 			return
 		}
